@@ -16,6 +16,11 @@ Local Open Scope Z_scope.
 Definition get_int (l : list Z) : Z * list Z :=
   match l with hi :: lo :: r => (hi * 4294967296 + lo, r) | _ => (0, []) end.
 
+(* op 11 = op 5 observed through a recording predicate: after the result, the token CALLS and the runes the predicate was
+   asked about, in order — RemoveRunes asks once per rune of the string (for a predicate with memory, "the runes selected by
+   the predicate" means nothing else) *)
+Definition CALLS : Z := -1000030.
+
 Definition enc_res (r : res) : list Z := match r with Ret b => b | Panic => [PANIC] | Stuck => [NOFUEL] end.
 
 (* the predicates handed to RemoveRunes *)
@@ -40,6 +45,7 @@ Definition run_model (op : Z) (r : list Z) : list Z :=
   else if op =? 8 then uc_first s
   else if op =? 9 then lc_first s
   else if op =? 10 then enc_res (roundtrip s (bz (hd0 r1)))
+  else if op =? 11 then enc_res (remove_runes (pred (nthz r1 0) (nthz r1 1)) s) ++ CALLS :: put_list (runes s)
   else [BADCASE].
 
 (* what the property fixes for this case: Some output where it defines one (rune-list definitions for non-negative
@@ -62,6 +68,8 @@ Definition expected (op : Z) (r : list Z) : option (list Z) :=
   else if op =? 8 then Some (match s with b :: t => (if lower b then b - 32 else b) :: t | [] => [] end)
   else if op =? 9 then Some (match s with b :: t => (if (65 <=? b) && (b <=? 90) then b + 32 else b) :: t | [] => [] end)
   else if op =? 10 then if ident s then Some s else None
+  else if op =? 11 then
+    if valid_utf8 s then Some (spec_remove_runes (pred (nthz r1 0) (nthz r1 1)) s ++ CALLS :: put_list (map crune (chunks s))) else None
   else None.
 
 (* sub 1: the specification's answer where there is one, else the model's (for reading replays) *)
